@@ -24,11 +24,11 @@ func (node *HusbandNode) Individual() *IndividualNode {
 
 	n := node.family.document.NodeByPointer(valueToPointer(node.value))
 
-	if IsNil(n) {
-		return nil
-	}
+	// The pointer may not exist, or it may point to something that is not an
+	// individual.
+	individual, _ := n.(*IndividualNode)
 
-	return n.(*IndividualNode)
+	return individual
 }
 
 func (node *HusbandNode) Similarity(other *HusbandNode, options SimilarityOptions) float64 {
